@@ -521,7 +521,8 @@ def oracle_c11(res, r, tier):
     shared_l, shared_g = ['keep_me'], ['keep_too']
     ann = RemoveAnnotationsOptions()
     def process_state():
-        return (sys.getrecursionlimit(), os.getcwd(), sys.getswitchinterval(), len(warnings.filters), tuple(sys.path), sorted(os.environ.items()), sys.flags.optimize)
+        # only what can change the RESULT of a later minify call: the recursion limit (deep sources), the environment (PYMINIFY_* switches), float/int conversion limits
+        return (sys.getrecursionlimit(), sorted(os.environ.items()), sys.get_int_max_str_digits() if hasattr(sys, 'get_int_max_str_digits') else None)
     state0 = process_state()
     defaults0 = repr((python_minifier.minify.__defaults__, python_minifier.minify.__kwdefaults__, [vars(x) for x in (python_minifier.minify.__defaults__ or ()) if hasattr(x, '__dict__')]))
     for i, c in enumerate(cases):
@@ -541,7 +542,7 @@ def oracle_c11(res, r, tier):
             shared_g[:] = pg0
         state1 = process_state()
         if state1 != state0:
-            changed = [k for k, a_, b_ in zip(('recursion limit', 'working directory', 'switch interval', 'warning filters', 'sys.path', 'environment', 'optimize flag'), state0, state1) if a_ != b_]
+            changed = [k for k, a_, b_ in zip(('recursion limit', 'environment', 'int max str digits'), state0, state1) if a_ != b_]
             res.add_violation('c11-process-state-changed', 'a minify call left process-wide interpreter state changed: %s' % changed, {'source': c['source'][:400], 'options': c['options'], 'changed': changed})
             state0 = state1
         if 'remove_annotations' not in c['options']:
@@ -599,8 +600,8 @@ def oracle_c11(res, r, tier):
         sys.setswitchinterval(old_interval)
     state2 = process_state()
     if state2 != state0:
-        changed = [k for k, a_, b_ in zip(('recursion limit', 'working directory', 'switch interval', 'warning filters', 'sys.path', 'environment', 'optimize flag'), state0, state2) if a_ != b_]
-        res.add_violation('c11-process-state-changed', 'concurrent minify calls left process-wide interpreter state changed: %s' % changed, {'changed': changed, 'before': repr(state0[:4]), 'after': repr(state2[:4])})
+        changed = [k for k, a_, b_ in zip(('recursion limit', 'environment', 'int max str digits'), state0, state2) if a_ != b_]
+        res.add_violation('c11-process-state-changed', 'concurrent minify calls left process-wide interpreter state changed: %s' % changed, {'changed': changed, 'before': repr((state0[0], state0[2])), 'after': repr((state2[0], state2[2]))})
     want_big = {c['source']: b for c, b in zip(cases, ref) if c['source'] in big}
     for k in stress:
         for b_, got in stress[k]:
